@@ -258,7 +258,19 @@ Fixpoint proc_batch (a : app) (b : list chunk) : app * list event * Z * bool :=
   end.
 
 (* ------------------------------------------------------------------ handle_data *)
-Record rstate : Set := mkR { r_conn : SctpState; r_cum : Z; r_rq : list chunk; r_app : app }.
+(* r_used = used_rwnd (usize): bytes of DATA chunk values charged to the receive window while they
+   wait in received_queue *)
+Record rstate : Set := mkR { r_conn : SctpState; r_cum : Z; r_rq : list chunk; r_app : app; r_used : Z }.
+
+(* `chunk.len()` of a buffered DATA chunk value: the 12 fixed bytes + user data *)
+Definition chunk_len (c : chunk) : Z := data_min_value_len + Z.of_nat (length (p_data (c_p c))).
+Definition sum_len (q : list chunk) : Z := fold_right (fun c a => chunk_len c + a) 0 q.
+
+(* advertised_rwnd(): what every SACK carries as a_rwnd; `local` = config.sctp_receive_window *)
+Definition adv_rwnd (local : Z) (st : rstate) : Z :=
+  if rwnd_zero_queue_len MAX_RECEIVED_QUEUE_SIZE <=? Z.of_nat (length (r_rq st)) then 0
+  else let byte_based := sat_usize (local - r_used st) in
+       if byte_based <=? 4294967295 then byte_based else 0.
 
 Definition is_nil {A : Type} (l : list A) : bool := match l with [] => true | _ => false end.
 Definition rq_mem (t : Z) (q : list chunk) : bool := existsb (fun c => c_tsn c =? t) q.
@@ -285,12 +297,16 @@ Definition recv_data (st : rstate) (c : chunk) : rstate * list event :=
   if data_is_dup diff then (st, [])
   else if (diff =? data_fast_diff) && is_nil (r_rq st) then
     let '(a1, evs, ok) := proc (r_app st) (c_p c) in
-    (mkR (r_conn st) (if ok then c_tsn c else r_cum st) (r_rq st) a1, evs)
+    (mkR (r_conn st) (if ok then c_tsn c else r_cum st) (r_rq st) a1 (r_used st), evs)
   else
-    let rq1 := if rq_mem (c_tsn c) (r_rq st) then r_rq st else r_rq st ++ [c] in
+    (* `if !contains_key { used_rwnd += chunk.len(); insert }`; every chunk processed by the loop is
+       credited back (`used_rwnd -= chunk_len` after process_data_payload returned Ok) *)
+    let present := rq_mem (c_tsn c) (r_rq st) in
+    let rq1 := if present then r_rq st else r_rq st ++ [c] in
+    let used1 := if present then r_used st else cast_usize (r_used st + chunk_len c) in
     let '(batch, rq2) := take_run (length rq1) (w32 (r_cum st + 1)) rq1 in
     let '(a1, evs, n, _) := proc_batch (r_app st) batch in
-    (mkR (r_conn st) (w32 (r_cum st + n)) rq2 a1, evs).
+    (mkR (r_conn st) (w32 (r_cum st + n)) rq2 a1 (cast_usize (used1 - sum_len (firstn (Z.to_nat n) batch))), evs).
 
 (* ------------------------------------------------------------------ setup, forward-TSN, close *)
 (* the loop over data_channels in handle_cookie_echo / handle_cookie_ack *)
@@ -320,11 +336,12 @@ Fixpoint fwd_streams (a : app) (pairs : list (Z * Z)) : app * list event :=
     end
   end.
 
-(* handle_forward_tsn: numeric `>` on both comparisons, no drain of the reorder queue *)
+(* handle_forward_tsn: numeric `>` on both comparisons, no drain of the reorder queue; the chunks
+   `retain` drops are not credited back to used_rwnd *)
 Definition fwd_tsn (st : rstate) (newcum : Z) (pairs : list (Z * Z)) : rstate * list event :=
   if newcum >? r_cum st then
     let '(a1, evs) := fwd_streams (r_app st) pairs in
-    (mkR (r_conn st) newcum (filter (fun c => c_tsn c >? newcum) (r_rq st)) a1, evs)
+    (mkR (r_conn st) newcum (filter (fun c => c_tsn c >? newcum) (r_rq st)) a1 (r_used st), evs)
   else (st, []).
 
 Definition close_channel (a : app) (sid : Z) : app * list event :=
@@ -360,7 +377,7 @@ Definition connected (st : rstate) : bool := SctpState_eqb (r_conn st) SctpState
 
 Definition establish (st : rstate) (pre : list event) : rstate * list event :=
   let '(cs, evs) := on_established (a_chans (r_app st)) in
-  (mkR SctpState_Connected (r_cum st) (r_rq st) (mkApp cs (a_streams (r_app st))), pre ++ evs).
+  (mkR SctpState_Connected (r_cum st) (r_rq st) (mkApp cs (a_streams (r_app st))) (r_used st), pre ++ evs).
 
 Definition step (st : rstate) (i : input) : rstate * list event :=
   if SctpState_eqb (r_conn st) SctpState_Closed then (st, []) else
@@ -368,17 +385,17 @@ Definition step (st : rstate) (i : input) : rstate * list event :=
   | IData c => recv_data st c
   | IInit t =>
     if connected st then (st, [])
-    else (mkR (r_conn st) (w32 (t - 1)) (r_rq st) (r_app st), [TxCtl CT_INIT_ACK])
+    else (mkR (r_conn st) (w32 (t - 1)) (r_rq st) (r_app st) (r_used st), [TxCtl CT_INIT_ACK])
   | IInitAck t has_cookie =>
     if connected st then (st, [])
-    else (mkR (r_conn st) (w32 (t - 1)) (r_rq st) (r_app st), if has_cookie then [TxCtl CT_COOKIE_ECHO] else [])
+    else (mkR (r_conn st) (w32 (t - 1)) (r_rq st) (r_app st) (r_used st), if has_cookie then [TxCtl CT_COOKIE_ECHO] else [])
   | ICookieEcho valid => if valid then establish st [TxCtl CT_COOKIE_ACK] else (st, [])
   | ICookieAck => establish st []
   | IFwdTsn n pairs => fwd_tsn st n pairs
-  | IClose sid => let '(a, evs) := close_channel (r_app st) sid in (mkR (r_conn st) (r_cum st) (r_rq st) a, evs)
+  | IClose sid => let '(a, evs) := close_channel (r_app st) sid in (mkR (r_conn st) (r_cum st) (r_rq st) a (r_used st), evs)
   | ITeardown =>
     let '(cs, evs) := teardown (a_chans (r_app st)) in
-    (mkR SctpState_Closed (r_cum st) (r_rq st) (mkApp cs (a_streams (r_app st))), evs)
+    (mkR SctpState_Closed (r_cum st) (r_rq st) (mkApp cs (a_streams (r_app st))) (r_used st), evs)
   end.
 
 Fixpoint run (st : rstate) (h : list input) : rstate * list event :=
@@ -388,9 +405,9 @@ Fixpoint run (st : rstate) (h : list input) : rstate * list event :=
   end.
 
 (* run_loop sets Connecting before anything is received *)
-Definition init_r (cum : Z) (cs : list chan) : rstate := mkR SctpState_Connecting cum [] (mkApp cs []).
+Definition init_r (cum : Z) (cs : list chan) : rstate := mkR SctpState_Connecting cum [] (mkApp cs []) 0.
 (* an established association that expects TSN cum+1 next *)
-Definition est_r (cum : Z) (cs : list chan) : rstate := mkR SctpState_Connected cum [] (mkApp cs []).
+Definition est_r (cum : Z) (cs : list chan) : rstate := mkR SctpState_Connected cum [] (mkApp cs []) 0.
 
 (* ------------------------------------------------------------------ observations *)
 Definition log_of (sid : Z) (evs : list event) : list (list Z) :=
